@@ -1,5 +1,5 @@
 CONSTANTS
- N = 5
+ N = 2
  TxIns <- U_TxIns
  TxNOut <- U_TxNOut
  TxFee <- U_TxFee
@@ -10,7 +10,7 @@ CONSTANTS
  TxLock <- U_TxLock
  TxWit <- U_TxWit
  SlotParent <- U_SlotParent
- NFund = 3
+ NFund = 1
  Maturity = 1
  RejectRepl = FALSE
  MaxOrphans = 0
@@ -29,8 +29,8 @@ CONSTANTS
  Policies <- U_Policies
  Variants <- U_Variants
  CbWeight <- U_CbWeight
- H0 = 2
- HardDiff = FALSE
+ H0 = 41
+ HardDiff = TRUE
  CommitWeight = 224
 INIT Init
 NEXT Next
